@@ -34,6 +34,9 @@ def run(ctx, rep):
     r3(prog, ev, rep)
     r4(prog, ev, rep)
     r5(prog, ev, rep)
+    if ctx.tier == "thorough":
+        from vflib import witness
+        witness.report(rep, "C01-W", ['W1', 'W1b'], "compile_fail witnesses: a result (with or without path) cannot outlive the document")
 
 
 # ------------------------------------------------------------------------------------------- R1
